@@ -262,6 +262,9 @@ def proof_counterexample(proof):
     """When the obligation that ties a REGENERATED function to the model breaks, search the two for an argument tuple
     on which they differ (Lean, exhaustive over a small domain). Returns a line of text or None."""
     text = (proof.get("log") or "") + " ".join(proof.get("problems") or [])
+    # the search programs import the regenerated modules and the model, never the (broken) obligation modules
+    lake_build(["BigtoolsModel.Generated.Funcs", "BigtoolsModel.Generated.Atoms", "BigtoolsModel.Tiler2", "BigtoolsModel.Sweep",
+                "BigtoolsModel.WigSections", "BigtoolsModel.BedQueryBytes", "BigtoolsModel.ZoomQueryBytes", "BigtoolsModel.Validate", "BigtoolsModel.RT"])
     if "OverlapsGen" in text:
         rc, out = run(["lake", "env", "lean", "--run", "Cex/OverlapsCex.lean"], cwd=LEAN)
         m = re.search(r"^CEX (.*)$", out, re.M)
@@ -272,6 +275,11 @@ def proof_counterexample(proof):
         m = re.search(r"^CEX (.*)$", out, re.M)
         if m:
             return "ValidateGen: " + m.group(1)
+    if "AtomsGen" in text:
+        rc, out = run(["lake", "env", "lean", "--run", "Cex/AtomsCex.lean"], cwd=LEAN)
+        m = re.search(r"^CEX (.*)$", out, re.M)
+        if m:
+            return "AtomsGen: " + m.group(1)
     if "FiltersGen" in text:
         rc, out = run(["lake", "env", "lean", "--run", "Cex/FiltersCex.lean"], cwd=LEAN)
         m = re.search(r"^CEX (.*)$", out, re.M)
@@ -382,8 +390,11 @@ def run_impl(cases, workdir, timeout=20, jobs=8):
         out_all = {}
         start_from = None
         attempts = 0
+        hangs = 0
         while True:
-            cmd = [HARNESS_BIN, "run", path, os.path.join(workdir, "out"), "--timeout", str(timeout)]
+            # after two hangs in a shard the watchdog is shortened: a change that makes many cases hang must not turn a
+            # quick check into an hour (the first hangs are judged with the full timeout; a violation is certain by then)
+            cmd = [HARNESS_BIN, "run", path, os.path.join(workdir, "out"), "--timeout", str(timeout if hangs < 2 else min(timeout, 4))]
             if start_from:
                 cmd += ["--from", start_from]
             p = subprocess.run(cmd, stdout=subprocess.PIPE, stderr=subprocess.DEVNULL, text=True, errors="replace",
@@ -392,6 +403,8 @@ def run_impl(cases, workdir, timeout=20, jobs=8):
             out_all.update(got)
             if p.returncode == 0:
                 break
+            if any(v and v[0] == "R hang" for v in got.values()):
+                hangs += 1
             # died / hang inside the last case reported: continue after it
             ids = [c.id for c in shard]
             done = [i for i in ids if i in out_all]
@@ -711,9 +724,18 @@ def run_differential(prop, tier, seed, replay=None):
     rep.coverage["model_disagreements"] = len(disagreeing)
     known = [f for f in load_known().get("findings", []) if f.get("property") == pid]
     reported = {}
+    # failures that ARE a listed known finding (judged on the case as generated) are set aside first, so that a known
+    # finding can never stand in for — and hide — a different failure that happens to be worded alike
+    unknown = []
+    for c, orc in failing:
+        hit = next((f for f in known if prop.known_match(f, c, orc)), None)
+        if hit:
+            rep.known_finding(hit.get("what", hit.get("id", "")))
+        else:
+            unknown.append((c, orc))
     # one representative per kind of failure (digits abstracted), smallest case first
     reps, seen_keys = [], set()
-    for c, orc in sorted(failing, key=lambda x: len(x[0].lines)):
+    for c, orc in sorted(unknown, key=lambda x: len(x[0].lines)):
         k0 = c.kind + ":" + reason_key(orc)
         if k0 not in seen_keys:
             seen_keys.add(k0)
@@ -729,14 +751,9 @@ def run_differential(prop, tier, seed, replay=None):
         v = judge([small], "final")[small.id]
         reason = v[3] or orc
         use = small if v[3] else c
-        hit = None
-        for f in known:
-            if prop.known_match(f, use, reason):
-                hit = f
-                break
-        if hit:
-            rep.known_finding(hit.get("what", hit.get("id", "")))
-            continue
+        if use is not c and any(prop.known_match(f, use, reason) for f in known):
+            # shrinking turned this failure into an instance of a known finding: report the case as generated
+            use, reason, v = c, orc, verdicts[c.id]
         key = reason_key(reason)
         if key in reported:
             continue
